@@ -577,21 +577,25 @@ func IncrementNumFinishedSegments(incr int, qid uint64, recsSearched uint64,
 		return
 	}
 
-	rQuery.rqsLock.Lock()
-	rQuery.finishedSegments += uint64(incr)
+	func() {
+		// deferred unlock: the calls below run query code that may panic; the lock must not stay
+		// held, or every later access to this query (including its deletion) blocks forever
+		rQuery.rqsLock.Lock()
+		defer rQuery.rqsLock.Unlock()
+		rQuery.finishedSegments += uint64(incr)
 
-	rQuery.totalRecsSearched += recsSearched
-	if rQuery.searchRes != nil {
-		rQuery.queryCount = rQuery.searchRes.GetQueryCount()
-		rQuery.rawRecords = rQuery.searchRes.GetResultsCopy()
-		if doBuckPull {
-			rQuery.searchHistogram = rQuery.searchRes.GetBucketResults()
+		rQuery.totalRecsSearched += recsSearched
+		if rQuery.searchRes != nil {
+			rQuery.queryCount = rQuery.searchRes.GetQueryCount()
+			rQuery.rawRecords = rQuery.searchRes.GetResultsCopy()
+			if doBuckPull {
+				rQuery.searchHistogram = rQuery.searchRes.GetBucketResults()
+			}
+			if sstMap != nil && rQuery.isAsync {
+				rQuery.searchRes.AddSSTMap(sstMap, skEnc)
+			}
 		}
-		if sstMap != nil && rQuery.isAsync {
-			rQuery.searchRes.AddSSTMap(sstMap, skEnc)
-		}
-	}
-	rQuery.rqsLock.Unlock()
+	}()
 
 	if rQuery.QType != structs.RRCCmd {
 		if rQuery.Progress == nil {
